@@ -290,6 +290,10 @@ def run(ctx):
       s["raised"] += 1 if c["exc"] else 0
       nontrivial += 1 if c["out"]["old"] and c["out"]["req"] else 0
   n_grid = sum(stats[e]["cases"] for e in embs)
+  # document-level part of the statement: position columns hold pairwise distinct values after any
+  # history - clause C20.positions of Trace_Doc, evaluated on the engine-history corpora
+  from checks import _shared   # pylint: disable=import-outside-toplevel
+  doc = _shared.run_clauses(ctx, "C20.", lambda e: e["k"] == "B", "", corpora=_shared.BOTH)
   return {
     "states": model["distinct"] + n, "transitions": model["generated"] + n,
     "traces_validated_against_impl": n,
@@ -304,13 +308,16 @@ def run(ctx):
                     "the embeddings sparse/dense/mixed/denseu(/denseb) represent the float neighbourhoods of the "
                     "bounded space; random profiles cover other magnitudes only by sampling",
                     "precondition: existing positions finite and strictly increasing (checked by TLC per case)"],
-    "violations": _violations(failures),
-    "extra": {"per_embedding": stats, "judge_wall_s": round(wall, 1), "model_wall_s": round(model["wall"], 1),
+    "violations": _violations(failures) + doc["violations"],
+    "extra": {"document_positions_events_judged": doc["evaluations"], "per_embedding": stats, "judge_wall_s": round(wall, 1), "model_wall_s": round(model["wall"], 1),
               "selftest_mutations": [c for c, _ in muts]},
   }
 
 
 def replay(ctx, data):
+  if "tid" in data:
+    from checks import _shared   # pylint: disable=import-outside-toplevel
+    return _shared.replay_clause(ctx, data, "C20.")
   files = fnspec.run_cases("fn_relabel.py", [data["case"]["inp"]], ctx.workdir)
   failures, _, _ = fnspec.judge("Trace_Relabel", files, ctx.workdir)
   return {"violations": _violations(failures)}
